@@ -91,6 +91,12 @@ def gen_cases(rng, tier, scale):
                 items = [_x(pre_), _t('raw', True, False, tr, quad=True), _x('\n' + body + '\n'), _t('/raw', True, quad=True), _x('\n' + post_)]
                 cases.append(rcase(f'rb{j}', _src(items), {'x': 'X'}, entry=4, kind='whole', s=' ' + body, exp=_exp(items), tags=['rawblock-standalone']))
                 j += 1
+    # a lone CR (not followed by LF) is ordinary text: it is never removed, also not directly after a tag that
+    # stands at the start of a line
+    for j2, (tpl, exp) in enumerate([('{{! note }}\rbody', '\rbody'), ('{{#if t}}\rx{{/if}}', '\rx'), ('{{{{raw}}}}\rz{{{{/raw}}}}', '\rz'),
+                                    ('a{{#if f}}n{{else}}\r\r\nb{{/if}}', 'a\r\r\nb'), ('{{#if t}}x{{/if}}\ry', 'x\ry'), ('{{> p}}\rq', 'P\rq'),
+                                    ('x\r{{!c}}\ry', 'x\r\ry'), ('{{#if t}}\r\rx{{/if}}', '\r\rx')]):
+        cases.append(rcase(f'cr{j2}', tpl, {'t': True, 'f': False}, partials={'p': 'P'}, entry=0, kind='whole', s='\r', exp=exp, tags=['lone-cr']))
     return cases
 
 def oracle(c, io, mo):
